@@ -1293,4 +1293,6 @@ def extra_coverage(prop, tier, traces):
     'traces_with_parent_delete': sum(1 for t in traces if any(e['e'] == 'PDelete' for e in t['ev'])),
     'traces_with_raising_callback': sum(1 for t in traces if any(e['e'] == 'Raised' for e in t['ev'])),
     'traces_with_unhandled_greenlet_error': sum(1 for m in metas if m.get('errors')),
+    'traces_with_blocking_callback': sum(1 for m in metas if m.get('blocks')),
+    'traces_with_blocked_callback_not_returning_normally': sum(1 for m in metas if m.get('cut_short')),
   }
